@@ -171,14 +171,79 @@ def files(ctx: Ctx):
                       {'surface': 'file', 'design': d, 'targeton': t, 'region': reg}, broken='correspondence S-file rows per coding region (C03)')
 
 
+def check_cdna(ctx: Ctx, d: dict, r: dict):
+    """cDNA mode: the codon-level rows of a coding region 2 (CDS frame from the annotation file) are the oracle's, nothing outside the region."""
+    if r['exit'] != 0:
+        ctx.violation('spec_violation', f"valid cDNA design refused: exit {r['exit']} {r['exc']} {r['exc_msg'][:80]}",
+                      {'surface': 'file', 'design': d, 'exc': r['exc'], 'exc_msg': r['exc_msg']})
+        return
+    tb = codonspec.Table(d.get('codon_table'))
+    annot = {a[0]: a for a in d.get('annot') or [] if a[3] != ''}
+    keyed = {}
+    for t in d['targetons']:
+        keyed.setdefault((t['seq_id'], t['ref_start'], t['ref_end']), []).append(t)
+    for n in sge.targeton_names(r['files']):
+        rows = sge.all_meta_rows(r['files'], n)
+        if not rows:
+            continue
+        cands = [t for (sid, a, b), ts in keyed.items() for t in ts if n.startswith(sid + '_') and a == int(rows[0]['ref_start']) and b == int(rows[0]['ref_end'])]
+        if len(cands) != 1:
+            ctx.count('cdna_ambiguous_targeton_skipped')
+            continue
+        t = cands[0]
+        a = annot.get(t['seq_id'])
+        got = sorted((x['mutator'], int(x['mut_position']), x['ref'], x['new']) for x in rows if x['mutator'] in cc.CODON_LABELS)
+        ctx.evaluations += 1
+        if not (a and a[3] <= t['r2_start'] and t['r2_end'] <= a[4]):
+            if got:
+                ctx.violation('spec_violation', f'cDNA: codon-level rows for a region outside the CDS: {got[:3]}', {'surface': 'file', 'design': d, 'targeton': t})
+            continue
+        seq = d['seqs'][t['seq_id']].upper()
+        fr = codonspec.Frame([(a[3], a[4], 0)], '+')
+        want = set(m for m in t['action'] if m in cc.CODON_LABELS)
+        exp = codonspec.region_expected(fr, tb, lambda p: seq[p - 1], t['r2_start'], t['r2_end'], want)
+        e = sorted((lab, p, rr, al) for lab, st in exp.items() for p, rr, al in st)
+        ctx.count('cdna_regions_offset%d' % ((t['r2_start'] - a[3]) % 3))
+        if e:
+            ctx.nontriv((common.sha(d), n))
+        if e != got:
+            missing = [x for x in e if x not in got][:3]
+            extra = [x for x in got if x not in e][:3]
+            ctx.violation('spec_violation', f"cDNA {t['seq_id']} region [{t['r2_start']},{t['r2_end']}] (CDS {a[3]}-{a[4]}): missing {missing} unexpected {extra} (dups {len(got) - len(set(got))})",
+                          {'surface': 'file', 'design': d, 'targeton': t, 'expected': e[:40], 'got': got[:40]})
+
+
+def files_cdna(ctx: Ctx):
+    designs = []
+    for _ in range(ctx.n(40, 500)):
+        d = gen.gen_cdna(ctx.rng, {'p_table': 0.2})
+        annot = {a[0]: a for a in d.get('annot') or [] if a[3] != ''}
+        for t in d['targetons']:
+            a = annot.get(t['seq_id'])
+            if a and ctx.rng.random() < 0.8:
+                # region 2 inside the CDS at every codon offset of its two ends, at or inside the targeton edges
+                lo = ctx.rng.randint(max(2, a[3]), max(2, a[3], a[4] - 12))
+                hi = min(a[4], lo + ctx.rng.randint(1, 14))
+                t['r2_start'], t['r2_end'] = lo, hi
+                t['ref_start'] = lo if ctx.rng.random() < 0.4 else max(1, lo - ctx.rng.randint(1, 9))
+                t['ref_end'] = hi if ctx.rng.random() < 0.4 else min(len(d['seqs'][t['seq_id']]), hi + ctx.rng.randint(1, 9))
+                t['action'] = sorted(set(ctx.rng.sample(['snv', 'snvre', 'snvre', 'ala', 'stop', 'aa', 'inframe', '1del'], 3)))
+        designs.append(d)
+    for d, r in pool_map(design_case, designs):
+        ctx.count('designs_cdna')
+        check_cdna(ctx, d, r)
+
+
 def run(ctx: Ctx):
     sweep(ctx)
     files(ctx)
+    files_cdna(ctx)
     return {'rule': 'S-api: small transcripts (1-3 exons of 1..7 bases, both strands, default and a permuted codon table), every sub-range of '
                     'every exon, the five codon-level mutators through the real Transcript.get_cds_seq + MutatorCollection.get_variants, '
                     'compared with the Coq model region_rows (vm_compute) and with an independent reading-frame oracle; non-coding regions '
                     'must refuse. S-file: random SGE designs (both strands, PAM edits, custom codon tables, regions starting/ending mid-codon '
-                    'and next to junctions): rows of codon-level labels per coding region = oracle, and = model. Non-trivial = a region with '
+                    'and next to junctions): rows of codon-level labels per coding region = oracle, and = model; random cDNA designs (region 2 inside the CDS at '
+                    'every codon offset of its two ends): rows of codon-level labels = oracle. Non-trivial = a region with '
                     'at least one expected codon-level row.'}
 
 
@@ -200,7 +265,10 @@ def replay(ctx: Ctx, path: str) -> int:
             bad = exp is not None and (res[0] != 'ok' or rowset(exp, c[6]) != rowset(res[1], c[6]))
     elif 'design' in case:
         d, r = design_case(case['design'])
-        check_design(ctx, d, r, [], [])
+        if d.get('mode') == 'cdna':
+            check_cdna(ctx, d, r)
+        else:
+            check_design(ctx, d, r, [], [])
         bad = bool(ctx.violations)
     else:
         print('replay: nothing to run (obligation-only replay file)')
